@@ -259,7 +259,9 @@ def stepCore (st : St) (tok : List String) (impl : String) : St × Verdict :=
           let bh := match f.behavior with
             | .noChange => "none" | .ipChanged => "ip" | .portChanged => "port" | .bothChanged => "both"
           s!"{ty},{bh},{f.portsDifference},{b01 f.regular},{b01 f.pub}"
-      (st, verdictOf m impl)
+      -- property on the implementation's own answer (C20.classify_some_iff / classify_malformed_error): accepted
+      -- exactly when there are at least two entries and EVERY entry splits and has a decimal port in 1..65535
+      (st, verdictOf m impl (some ((impl != "err") == (decide (2 ≤ a.length) && C20.addrsValid a))))
     | _, _ => (st, .bad "classify")
   | ["range", tag, a, d, n] =>
     match unlist a, d.toInt?, n.toNat? with
